@@ -3,6 +3,8 @@ package vc
 import (
 	"fmt"
 	"go/types"
+	"hash/fnv"
+	"regexp"
 	"math/big"
 	"os"
 	"strings"
@@ -207,6 +209,29 @@ func structKey(t types.Type, u *types.Struct) string {
 	return u.String()
 }
 
+// structTypeByName: struct sort name -> Go type (process-wide), so that a context can declare a
+// struct sort it first meets inside a heap name computed by another context.
+var structTypeByName = map[string]types.Type{}
+
+var structSortRef = regexp.MustCompile(`St_[A-Za-z0-9_.]+_[0-9a-f]{8}`)
+
+// ensureStructSorts declares the struct sorts mentioned in an SMT declaration.
+func (c *Ctx) ensureStructSorts(decl string) {
+	if !strings.Contains(decl, "St_") {
+		return
+	}
+	for _, n := range structSortRef.FindAllString(decl, -1) {
+		if c.structNames[n] {
+			continue
+		}
+		if t, ok := structTypeByName[n]; ok {
+			if u, isStruct := t.Underlying().(*types.Struct); isStruct {
+				c.structSort(t, u)
+			}
+		}
+	}
+}
+
 func (c *Ctx) structSort(t types.Type, u *types.Struct) string {
 	if c.structs == nil {
 		c.structs = map[string]*structInfo{}
@@ -215,9 +240,18 @@ func (c *Ctx) structSort(t types.Type, u *types.Struct) string {
 	if si, ok := c.structs[k]; ok {
 		return si.sort
 	}
-	name := fmt.Sprintf("St%d_%s", len(c.structs), sanitizeShort(k))
+	// the sort's name is a function of the type alone: heap names that embed it (maps keyed by a
+	// struct) are computed once per callee and shared between verification contexts
+	hsh := fnv.New32a()
+	hsh.Write([]byte(k))
+	name := fmt.Sprintf("St_%s_%08x", sanitizeShort(k), hsh.Sum32())
 	si := &structInfo{sort: name, ctor: "mk_" + name}
 	c.structs[k] = si
+	structTypeByName[name] = t
+	if c.structNames == nil {
+		c.structNames = map[string]bool{}
+	}
+	c.structNames[name] = true
 	var fields []string
 	for i := 0; i < u.NumFields(); i++ {
 		sel := fmt.Sprintf("%s_f%d", name, i)
